@@ -35,7 +35,7 @@ def case(ctx, rnd, i):
     from prosemirror.transform import ReplaceStep, Transform, structure
 
     if rnd.random() < 0.8:
-        sch = schemas.get(rnd.choice(schemas.TOTALITY))
+        sch = schemas.get(rnd.choice(schemas.TOTALITY + ("section", "section")))  # joins across different container types
     else:
         sch = schemas.random_schema(rnd)
         if sch is None:
@@ -54,6 +54,9 @@ def case(ctx, rnd, i):
     if i % 20 == 0:
         ctx.sample({"schema": sch.id, "doc": str(d)[:200]})
     positions = list(range(n + 1)) if n <= 24 else sorted(rnd.sample(range(n + 1), 24))
+    # always: the positions between two adjacent non-leaf siblings (where joins happen)
+    seams = [k for k in range(1, n) if tk[k - 1][0] == "C" and tk[k][0] == "O"]
+    positions = sorted(set(positions) | set(seams if len(seams) <= 16 else rnd.sample(seams, 16)))
     W = opwork.watch()
     lim = opwork.line_budget(n, 40)
 
